@@ -232,6 +232,25 @@ func (e *qEnv) putDoc(col string, docID string, fields map[string]any) {
 	}
 }
 
+// putDeletedDoc stores a document the way applyDelete leaves it: its entries under the deleted prefix (the entries of the
+// secondary indexes are removed on delete)
+func (e *qEnv) putDeletedDoc(col string, docID string, fields map[string]any) {
+	c := e.shortCol(col)
+	def := e.store.cols[c-1].def
+	k := keys.DataStoreKey{CollectionShortID: c, DocID: docID, FieldID: keys.DATASTORE_DOC_VERSION_FIELD_ID}.WithDeletedFlag()
+	e.txn.data.put(k.Bytes(), []byte(def.Schema.VersionID))
+	for _, f := range def.Schema.Fields {
+		v, ok := fields[f.Name]
+		if !ok {
+			continue
+		}
+		sid, err := id.GetShortFieldID(e.ctx, c, f.Name)
+		vBound(err == nil, "field id")
+		fk := keys.DataStoreKey{CollectionShortID: c, DocID: docID, FieldID: strconv.Itoa(int(sid))}.WithDeletedFlag()
+		e.txn.data.put(fk.Bytes(), qCbor(v))
+	}
+}
+
 func qField(name string) *request.Field { return &request.Field{Name: name} }
 
 func (e *qEnv) run(sel *request.Select) ([]map[string]any, error) {
